@@ -2,6 +2,7 @@ package main
 
 import (
 	"bytes"
+	"context"
 	"encoding/json"
 	"fmt"
 	"io"
@@ -223,11 +224,32 @@ var procSignalObs *runObs
 
 func (*procSignal) ExitSignal() bool { return procSignalObs.ExitSignal() }
 
+// ctxSignal: a host signal that also IS a context (it embeds one whose Done channel never closes): whether the run must stop is what
+// ExitSignal says, whatever other methods the host's type happens to carry.
+type ctxSignal struct {
+	context.Context
+	o *runObs
+}
+
+func (c ctxSignal) ExitSignal() bool { return c.o.ExitSignal() }
+
+// fnSignal: a function type with the method.
+type fnSignal func() bool
+
+func (f fnSignal) ExitSignal() bool { return f() }
+
+var neverDone, _ = context.WithCancel(context.Background()) //nolint
+
 func signalFor(o *runObs, fireAt int) plruntime.Signal {
-	if fireAt%2 == 1 {
+	switch fireAt % 4 {
+	case 1:
 		procSignalObs = o
 		var s *procSignal
 		return s
+	case 2:
+		return ctxSignal{neverDone, o}
+	case 3:
+		return fnSignal(o.ExitSignal)
 	}
 	return o
 }
@@ -450,6 +472,9 @@ func failedEarlierRun(ps *progSet) {
 	}
 }
 
+var hostReused = &input.Point{}
+var hostRuns int
+
 func runOnce(ps *progSet, fireAt, budget int) runResult {
 	o := &runObs{fireAt: fireAt, budget: budget}
 	res := runResult{obs: o}
@@ -491,11 +516,27 @@ func runOnce(ps *progSet, fireAt, budget int) runResult {
 			for k, v := range ps.Pt.Tags {
 				tags[k] = v
 			}
-			pt = input.InitPt(&input.Point{}, ps.Pt.Meas, tags, f, fixedTime)
+			// every second host-typed record arrives in a Point VALUE THE HOST REUSES for consecutive records (InitPt again, no PutPoint in
+			// between): the previous record had the same keys holding ordinary text
+			target := &input.Point{}
+			hostRuns++
+			if hostRuns%2 == 1 {
+				prev := map[string]any{}
+				for k := range f {
+					prev[k] = "previous record"
+				}
+				ptags := map[string]string{}
+				for k := range tags {
+					ptags[k] = "previous tag"
+				}
+				input.InitPt(hostReused, ps.Pt.Meas, ptags, prev, fixedTime)
+				target = hostReused
+			}
+			pt = input.InitPt(target, ps.Pt.Meas, tags, f, fixedTime)
 		}
 		res.pt = pt
 		failedEarlierRun(ps) // between the load and the run (uninterrupted and cancelled runs alike): nothing in between restores what the earlier run left
-		if ps.Pt.Lz != "" { // the host process is in this zone while the script runs (and back in UTC afterwards)
+		if ps.Pt.Lz != "" {  // the host process is in this zone while the script runs (and back in UTC afterwards)
 			if loc, lerr := time.LoadLocation(ps.Pt.Lz); lerr == nil {
 				old := time.Local
 				time.Local = loc
